@@ -93,14 +93,56 @@ func showPassword(p *spg.Password, err error) string {
 		roundTrip(ts, p.String(), p.Entropy))
 }
 
+func cloneSource(src []chunk) []chunk {
+	out := make([]chunk, len(src))
+	for i, c := range src {
+		out[i] = chunk{bs: append([]byte(nil), c.bs...), fail: c.fail}
+	}
+	return out
+}
+
+// held re-examines a password that was returned earlier after a LATER generation by the same recipe (same tape):
+// a returned Password is the caller's; nothing the library does afterwards may change it.
+func held(res string, p *spg.Password, src []chunk, again func()) string {
+	if p == nil {
+		return res
+	}
+	snap := func() string { ts := p.Tokens(); return showTokens(ts) + "|" + p.String() + "|" + f32(p.Entropy) }
+	before := snap()
+	so, se := drain(capOut), drain(capErr)
+	saved := tape
+	func() {
+		defer func() { _ = recover() }()
+		// a DIFFERENT stream for the later call (same chunking), so that it produces a different password
+		other := cloneSource(src)
+		for i := range other {
+			for j := range other[i].bs {
+				other[i].bs[j] ^= byte(0x5a + 7*j)
+			}
+		}
+		install(other)
+		again()
+	}()
+	tape = saved
+	drain(capOut)
+	drain(capErr)
+	_, _ = capOut.Write(so)
+	_, _ = capErr.Write(se)
+	if snap() != before {
+		return res + " RETURNED-PASSWORD-CHANGED-BY-A-LATER-CALL"
+	}
+	return res
+}
+
 func init() {
 	// chargen <recipe> <MaxTrials> <fn> <fd> <source>
 	families["chargen"] = func(t *toks) string {
 		r := t.recipe()
 		t.budget()
-		install(t.source())
+		src := t.source()
+		install(cloneSource(src))
 		p, err := r.Generate()
-		return showPassword(p, err)
+		return held(showPassword(p, err), p, src, func() { _, _ = r.Generate() })
 	}
 	// recipe <recipe>: the deterministic observables of a character recipe
 	families["recipe"] = func(t *toks) string {
